@@ -145,6 +145,35 @@ def audit(prop: str) -> tuple[dict[str, list[str]], str]:
     return res, out
 
 
+def import_closure(prop: str) -> list[str]:
+    """Modules of this library that `HugrVerif.Props.<prop>` depends on (itself included), by the import lines."""
+    seen, todo = [], [f"HugrVerif.Props.{prop}"]
+    while todo:
+        m = todo.pop()
+        if m in seen:
+            continue
+        f = LEAN / (m.replace(".", "/") + ".lean")
+        if not f.exists():
+            continue
+        seen.append(m)
+        for imp in re.findall(r"^import\s+(HugrVerif\.[\w.]+)", f.read_text(), flags=re.M):
+            todo.append(imp)
+    return sorted(seen)
+
+
+def leanchecker(prop: str) -> tuple[bool, dict]:
+    """Thorough tier: the toolchain's independent re-checker replays every declaration of the property module
+    and of every module of this library it depends on through the kernel again (compiled .olean files)."""
+    mods = import_closure(prop)
+    t = time.time()
+    try:
+        p = subprocess.run(["lake", "env", "leanchecker", *mods], cwd=LEAN, capture_output=True, text=True, timeout=3600)
+        ok, out = p.returncode == 0, (p.stdout + p.stderr)[-1500:]
+    except subprocess.TimeoutExpired:
+        ok, out = False, "timeout"
+    return ok, {"modules": len(mods), "seconds": round(time.time() - t, 1), "accepted": ok, "output": "" if ok else out}
+
+
 def count_theorems_in_source(prop: str) -> list[str]:
     f = LEAN / "HugrVerif" / "Props" / f"{prop}.lean"
     if not f.exists():
@@ -330,6 +359,11 @@ def run_check(prop: str, tier: str, seed: int, replay: str | None) -> int:
                 bad_axioms[name] = sorted(extra)
             else:
                 discharged += 1
+    recheck = None
+    if ok and tier == "thorough" and not replay:
+        rc_ok, recheck = leanchecker(prop)
+        if not rc_ok:
+            problems.append("leanchecker rejected the compiled modules: " + recheck["output"][-400:])
     forb = forbidden_tokens()
     obligations = len(theorem_names)
     obligations_ok = ok and not bad_axioms and not forb and not problems and obligations > 0
@@ -565,6 +599,7 @@ def run_check(prop: str, tier: str, seed: int, replay: str | None) -> int:
             "exhaustive": bool(getattr(mod, "exhaustive", lambda t: False)(tier)),
             "input_distribution": dict(counters),
             "translator_problems": problems,
+            "leanchecker": recheck if recheck is not None else "thorough tier only",
             "notes": notes,
         },
         "assumptions": list(getattr(mod, "ASSUMPTIONS", [])),
